@@ -239,3 +239,80 @@ theorem hat_mrpMat_mulVec (r : Fin 3 → ℝ) (y : Fin 3 → ℝ) :
   rw [mrpMat_eq_qmat]; exact hat_qmat_mulVec_unit _ (qnormSq_mrpUnitQ r) y
 
 end Rot
+
+namespace Rot
+
+/-! ### quaternion → MRP and the shadow set -/
+
+/-- MRP of a unit quaternion with non-negative scalar part -/
+noncomputable def quatToMrp (q : Fin 4 → ℝ) : Fin 3 → ℝ := ![q 1 / (1 + q 0), q 2 / (1 + q 0), q 3 / (1 + q 0)]
+
+theorem one_add_nsq_quatToMrp (q : Fin 4 → ℝ) (hq : qnormSq q = 1) (h0 : 0 ≤ q 0) :
+    1 + nsq (quatToMrp q) = 2 / (1 + q 0) := by
+  have hp : (1 + q 0) ≠ 0 := by linarith
+  simp only [nsq, quatToMrp, qnormSq] at *
+  simp
+  field_simp
+  linear_combination hq
+
+theorem nsq_quatToMrp_le (q : Fin 4 → ℝ) (hq : qnormSq q = 1) (h0 : 0 ≤ q 0) :
+    nsq (quatToMrp q) ≤ 1 := by
+  have h := one_add_nsq_quatToMrp q hq h0
+  have hp : 0 < 1 + q 0 := by linarith
+  have : 2 / (1 + q 0) ≤ 2 := by
+    rw [div_le_iff₀ hp]; linarith
+  linarith
+
+theorem mrpQ_quatToMrp (q : Fin 4 → ℝ) (hq : qnormSq q = 1) (h0 : 0 ≤ q 0) :
+    mrpQ (quatToMrp q) = (2 / (1 + q 0)) • q := by
+  have h := one_add_nsq_quatToMrp q hq h0
+  have hp : (1 + q 0) ≠ 0 := by linarith
+  funext i
+  fin_cases i
+  · have : 1 - nsq (quatToMrp q) = 2 - 2 / (1 + q 0) := by linarith
+    simp only [mrpQ, Fin.zero_eta, Matrix.cons_val_zero, Pi.smul_apply, smul_eq_mul]
+    rw [this]; field_simp; ring
+  all_goals simp [mrpQ, quatToMrp]; field_simp
+
+theorem mrpMat_quatToMrp (q : Fin 4 → ℝ) (hq : qnormSq q = 1) (h0 : 0 ≤ q 0) :
+    mrpMat (quatToMrp q) = qmat q := by
+  have h := one_add_nsq_quatToMrp q hq h0
+  have hp : (1 + q 0) ≠ 0 := by linarith
+  unfold mrpMat
+  rw [mrpQ_quatToMrp q hq h0, qmat_smul, h, smul_smul]
+  have : 1 / (2 / (1 + q 0)) ^ 2 * (2 / (1 + q 0)) ^ 2 = 1 := by field_simp
+  rw [this, one_smul]
+
+theorem qnormSq_neg (q : Fin 4 → ℝ) : qnormSq (-q) = qnormSq q := by simp [qnormSq]
+
+/-- the shadow MRP `-r/|r|²` is the same rotation -/
+theorem mrpMat_shadow (r : Fin 3 → ℝ) (hr : nsq r ≠ 0) :
+    mrpMat (fun i => -(r i / nsq r)) = mrpMat r := by
+  have hp := one_add_nsq_pos r
+  have hn : nsq (fun i => -(r i / nsq r)) = 1 / nsq r := by
+    have : nsq (fun i => -(r i / nsq r)) = nsq r / (nsq r) ^ 2 := by
+      simp only [nsq]; field_simp
+    rw [this]; field_simp
+  have hq : mrpQ (fun i => -(r i / nsq r)) = (-(1 / nsq r)) • mrpQ r := by
+    funext i
+    fin_cases i
+    · simp only [mrpQ, Fin.zero_eta, Matrix.cons_val_zero, Pi.smul_apply, smul_eq_mul]
+      rw [hn]; field_simp; ring
+    all_goals simp [mrpQ]; field_simp
+  have hp' : 1 + nsq r ≠ 0 := ne_of_gt hp
+  have hp'' : nsq r + 1 ≠ 0 := by rw [add_comm]; exact hp'
+  unfold mrpMat
+  rw [hq, qmat_smul, hn, smul_smul]
+  congr 1
+  field_simp
+  ring
+
+theorem nsq_shadow_le (r : Fin 3 → ℝ) (h : 1 < nsq r) : nsq (fun i => -(r i / nsq r)) ≤ 1 := by
+  have hr : nsq r ≠ 0 := by linarith
+  have : nsq (fun i => -(r i / nsq r)) = 1 / nsq r := by
+    have : nsq (fun i => -(r i / nsq r)) = nsq r / (nsq r) ^ 2 := by
+      simp only [nsq]; field_simp
+    rw [this]; field_simp
+  rw [this, div_le_one (by linarith)]; linarith
+
+end Rot
